@@ -41,8 +41,11 @@ VARMAPS = [{}, {"name": "given"}, {"date": "20240102"}, {"date": "20241231"},
 
 
 def template_text(i) -> str:
+    # the line that ends the template's header block is empty, or holds only blanks / a tab (what an
+    # editor's auto-indent leaves behind): by the rule it is a blank line all the same
+    sep = {0: "", 1: "  ", 2: "\t"}[i % 3] if isinstance(i, int) else ""
     return (
-        f"# Template T{i} header\n# ^ = [[template]]\n\n"
+        f"# Template T{i} header\n# ^ = [[template]]\n{sep}\n"
         f"## Page from T{i} for {{{{ name | default('nobody') }}}}\n##\n## ^ = [[parent]]\n\n"
         f"{{% if date %}}- dated {{{{ date.strftime('%Y-%m-%d') }}}}{{% endif %}}\n"
         f"- body of T{i} ## not a header\n"
